@@ -1046,7 +1046,7 @@ impl<'a> Johnson75<'a> {
         let ghost pre = self.stack@.push(v);
         let ghost r0 = rv(result@);
         proof { lemma_jg(scc, n); }
-    @before `for w in scc.out_neighbors(v)`
+    @before #1 `for w in scc.out_neighbors(v)`
         let ghost blk1 = self.blocked@;
         proof {
             lemma_jpush(has, ink, n, s, st0, v);
